@@ -239,7 +239,8 @@ def run_property(plan: Plan, tier: str, seed: int, contracts_mod_names, replay=N
         if o.kind == "must_fail":
             key = (o.fn, o.label.split(":", 1)[1])
             probes[key] = probes.get(key, False) or (o.result == "probe-ok")
-    dead_probes = [k for k, ok in probes.items() if not ok]
+    shaky = {o.fn for o in everything if o.result in ("refuted", "undecided")}
+    dead_probes = [k for k, ok in probes.items() if not ok and k[0] not in shaky]
     others_bad = [o for o in everything if o not in mine and o.result in ("refuted", "undecided")]
 
     violations = []     # (obligation name, replay path or None, detail)
